@@ -351,8 +351,10 @@ impl ExtendedKey {
         let secret_key = SecretKey::from_slice(&hmac[..32])?;
         let public_key = secret_key.public_key();
         let child_offset = public_key.to_projective();
-        let child_offset = child_offset.add(child_offset);
-        let child_public_key = PublicKey::<Secp256k1>::try_from(child_offset)?;
+        // BIP-32 CKDpub: K_i = point(I_L) + K_par
+        let parent_public_key = PublicKey::<Secp256k1>::from_sec1_bytes(&self.public_key()?)?;
+        let child_point = child_offset.add(parent_public_key.to_projective());
+        let child_public_key = PublicKey::<Secp256k1>::try_from(child_point)?;
         let child_bytes = child_public_key.to_sec1_bytes();
         let pk_vec = child_bytes.to_vec();
         assert!(pk_vec.len() == 33);
